@@ -120,6 +120,12 @@ impl DeferredBeneficiaryReward {
         assert!(!amount.is_zero(), "a deferred reward must be non-zero");
         Self(amount)
     }
+
+    #[cfg(grevm_verif)]
+    pub(crate) fn for_verif(amount: U256) -> Self {
+        assert!(!amount.is_zero(), "a deferred reward must be non-zero");
+        Self(amount)
+    }
 }
 
 #[cfg(test)]
